@@ -116,7 +116,7 @@ func (p *Path) reportBlocked(g0 *G) {
 	p.reached["engine:no_deadlock"]++
 	p.sol.Check(nil, false)
 	cex := &CounterEx{Harness: p.h.Name, Assert: "engine:no_deadlock", Inputs: p.model(), Params: p.h.Params,
-		Decisions: append([]Decision(nil), p.taken...), Note: "harness goroutine blocked forever: " + why, Trace: append([]string(nil), p.trace...)}
+		Decisions: append([]Decision(nil), p.taken...), Note: "harness goroutine blocked forever: " + why, Trace: append([]string(nil), p.trace...), Tag: p.tag}
 	p.resMu.Lock()
 	if len(p.res.CEX) < 200 {
 		p.res.CEX = append(p.res.CEX, cex)
@@ -191,7 +191,7 @@ func (p *Path) recordCrash(g *G, gp goPanic) {
 	p.resMu.Unlock()
 	p.sol.Check(nil, false)
 	cex := &CounterEx{Harness: p.h.Name, Assert: id, Inputs: p.model(), Params: p.h.Params,
-		Decisions: append([]Decision(nil), p.taken...), Note: fmt.Sprintf("panic escaped goroutine %d (%s): %s", g.id, g.name, gp.msg), Trace: append([]string(nil), p.trace...)}
+		Decisions: append([]Decision(nil), p.taken...), Note: fmt.Sprintf("panic escaped goroutine %d (%s): %s", g.id, g.name, gp.msg), Trace: append([]string(nil), p.trace...), Tag: p.tag}
 	p.resMu.Lock()
 	if len(p.res.CEX) < 200 {
 		p.res.CEX = append(p.res.CEX, cex)
